@@ -16,6 +16,8 @@ package parser
 // a token taken from the source: it has a line range 1 <= first <= last (C16: markers name real lines; C18: located errors)
 //@ pred TokLoc(t token.Token) = 1 <= t.LineNumber && t.LineNumber <= t.EndLineNumber
 
+//@ pred ErrLoc(e error) = boxis(e, ParseError) && 1 <= e.LineNumberStart && e.LineNumberStart <= e.LineNumberEnd
+
 //@ func NewParseError
 //@   requires [C18:located] 1 <= tok.LineNumber && tok.LineNumber <= tok.EndLineNumber
 //@   ensures [C18:err] result != nil && boxis(result, ParseError) && result.LineNumberStart == tok.LineNumber && result.LineNumberEnd == tok.EndLineNumber
@@ -93,6 +95,7 @@ package parser
 //@   ensures [C18,C20:expect-shift] result == nil ==> (p.curToken == old(p.peekToken) && p.peekToken == old(p.peek2Token) && p.peek2Token == old(p.peek3Token) && p.peek3Token == old(p.peek4Token))
 //@   ensures [C18:expect-stay] result != nil ==> (p.curToken == old(p.curToken) && p.peekToken == old(p.peekToken) && p.peek2Token == old(p.peek2Token) && boxis(result, ParseError) && result.LineNumberStart == p.peekToken.LineNumber && result.LineNumberEnd == p.peekToken.EndLineNumber)
 //@   ensures [C18:lines-mono] old(p.curToken.LineNumber) <= p.curToken.LineNumber
+//@   ensures [C18:located] result != nil ==> ErrLoc(result)
 //@ end
 
 // ---- scope modifiers (C15) ----
@@ -106,6 +109,7 @@ package parser
 //@        ==> (result1 == nil && result0 == old(p.peek2Token.Type) && p.curToken == old(p.peek3Token) && p.peekToken == old(p.peek4Token))
 //@   ensures [C15:mod-error] (old(p.peekToken.Type) == token.LPAREN && !((old(p.peek2Token.Type) == token.GLOBAL || old(p.peek2Token.Type) == token.LOCAL) && old(p.peek3Token.Type) == token.RPAREN)) ==> result1 != nil
 //@   ensures [C18:lines-mono] old(p.curToken.LineNumber) <= p.curToken.LineNumber
+//@   ensures [C18:located] result1 != nil ==> ErrLoc(result1)
 //@ end
 
 // ---- format() (C07, C17, C18) ----
@@ -258,6 +262,7 @@ package parser
 //@   include ParseFrame
 //@   requires p != nil
 //@   ensures [C20:stack-balanced] result1 == nil ==> (SameStack(p.breakStack, old(p.breakStack)) && SameStack(p.continueStack, old(p.continueStack)))
+//@   ensures [C18:located] result1 != nil ==> ErrLoc(result1)
 //@ end
 
 //@ func (p *Parser) peekTokenIsAutoVar
@@ -277,6 +282,7 @@ package parser
 //@   ensures [C11,C18:autovar-results] (result3 == nil && result1 != nil) ==> (result0 != nil && fresh(result1))
 //@   ensures [C11,C18:autovar-var] (result3 == nil && result1 == nil) ==> result0 == nil
 //@   ensures [C20:stack-balanced] result3 == nil ==> (SameStack(p.breakStack, old(p.breakStack)) && SameStack(p.continueStack, old(p.continueStack)))
+//@   ensures [C18:located] result3 != nil ==> ErrLoc(result3)
 //@   loopinv [C20:stack-balanced-inv] SameStack(p.breakStack, old(p.breakStack)) && SameStack(p.continueStack, old(p.continueStack))
 //@ end
 
@@ -310,6 +316,7 @@ package parser
 //@   ensures [C06,C20:text-names] result1 == nil ==> (result0 != nil && (forall a int, b int :: {result0.Texts[a], result0.Texts[b]} (0 <= a && a < b && b < len(result0.Texts)) ==> result0.Texts[a].Name != result0.Texts[b].Name))
 //@   ensures [C06,C20:move-names] result1 == nil ==> (forall a int, b int :: {result0.TopLevelStatements[a], result0.TopLevelStatements[b]} (0 <= a && a < b && b < len(result0.TopLevelStatements) && typeis(result0.TopLevelStatements[a], ast.MovementStatement) && typeis(result0.TopLevelStatements[b], ast.MovementStatement))
 //@               ==> as(result0.TopLevelStatements[a], ast.MovementStatement).Name.Value != as(result0.TopLevelStatements[b], ast.MovementStatement).Name.Value)
+//@   ensures [C18:located] result1 != nil ==> ErrLoc(result1)
 //@   loop 1
 //@     invariant [C18:pstate-inv] PState(p) && p.l == old(p.l) && p.l.input == old(p.l.input) && fresh(p.inlineTextsSet) && fresh(p.inlineMovementsSet) && p.constants == old(p.constants) && p.inlineTextCounts == old(p.inlineTextCounts) && p.inlineMovementCounts == old(p.inlineMovementCounts)
 //@     invariant [C06:tables-inv] TextTableOK(p) && MoveTableOK(p)
@@ -346,6 +353,7 @@ package parser
 //@   ensures [C06:move-table] MoveTableOK(p)
 //@   modifies fields(p.constants), fields(p.inlineTextsSet), fields(p.inlineTextCounts), fields(p.inlineMovementsSet), fields(p.inlineMovementCounts), allof(ast.CommandStatement.Args)
 //@   ensures [C20:stack-balanced] result1 == nil ==> (SameStack(p.breakStack, old(p.breakStack)) && SameStack(p.continueStack, old(p.continueStack)))
+//@   ensures [C18:located] result1 != nil ==> ErrLoc(result1)
 //@   loopinv [C20:stack-balanced-inv] SameStack(p.breakStack, old(p.breakStack)) && SameStack(p.continueStack, old(p.continueStack))
 //@ end
 
@@ -420,6 +428,7 @@ package parser
 //@   modifies holes
 //@   ensures [C06:complete] result2 == nil ==> ImpSize(result1) == holes - old(holes)
 //@   ensures [C20:stack-balanced] result2 == nil ==> (SameStack(p.breakStack, old(p.breakStack)) && SameStack(p.continueStack, old(p.continueStack)))
+//@   ensures [C18:located] result2 != nil ==> ErrLoc(result2)
 //@   loopinv [C20:stack-balanced-inv] SameStack(p.breakStack, old(p.breakStack)) && SameStack(p.continueStack, old(p.continueStack))
 //@ end
 
@@ -432,6 +441,7 @@ package parser
 //@   modifies holes
 //@   ensures [C06:complete] result2 == nil ==> ImpSize(result1) == holes - old(holes)
 //@   ensures [C20:stack-balanced] result2 == nil ==> (SameStack(p.breakStack, old(p.breakStack)) && SameStack(p.continueStack, old(p.continueStack)))
+//@   ensures [C18:located] result2 != nil ==> ErrLoc(result2)
 //@   loopinv [C20:stack-balanced-inv] SameStack(p.breakStack, old(p.breakStack)) && SameStack(p.continueStack, old(p.continueStack))
 //@ end
 
@@ -444,6 +454,7 @@ package parser
 //@   modifies holes
 //@   ensures [C06:complete] result2 == nil ==> ImpSize(result1) == holes - old(holes)
 //@   ensures [C20:stack-balanced] result2 == nil ==> (SameStack(p.breakStack, old(p.breakStack)) && SameStack(p.continueStack, old(p.continueStack)))
+//@   ensures [C18:located] result2 != nil ==> ErrLoc(result2)
 //@   loopinv [C20:stack-balanced-inv] SameStack(p.breakStack, old(p.breakStack)) && SameStack(p.continueStack, old(p.continueStack))
 //@ end
 
@@ -453,6 +464,7 @@ package parser
 //@   modifies holes
 //@   ensures [C06:complete] result2 == nil ==> ImpSize(result1) == holes - old(holes)
 //@   ensures [C20:stack-balanced] result2 == nil ==> (SameStack(p.breakStack, old(p.breakStack)) && SameStack(p.continueStack, old(p.continueStack)))
+//@   ensures [C18:located] result2 != nil ==> ErrLoc(result2)
 //@   loopinv [C20:stack-balanced-inv] SameStack(p.breakStack, old(p.breakStack)) && SameStack(p.continueStack, old(p.continueStack))
 //@ end
 
@@ -468,6 +480,7 @@ package parser
 //@   defines [C06:holes] holes = old(holes) + ImpSize(result1)
 //@   ensures [C18:cmd-fresh] result2 == nil ==> (result0 != nil && fresh(result0))
 //@   ensures [C20:stack-balanced] result2 == nil ==> (SameStack(p.breakStack, old(p.breakStack)) && SameStack(p.continueStack, old(p.continueStack)))
+//@   ensures [C18:located] result2 != nil ==> ErrLoc(result2)
 //@   loopinv [C20:stack-balanced-inv] SameStack(p.breakStack, old(p.breakStack)) && SameStack(p.continueStack, old(p.continueStack))
 // C10: every turn of the argument loop consumes one source token (or one inline text / moves() operator) and
 // accounts for it: a comma closes the current argument, anything else adds exactly one piece to it - the literal of
@@ -494,6 +507,7 @@ package parser
 //@ func (p *Parser) parseRawStatement
 //@   include ParseFrame
 //@   ensures [C20:stack-balanced] result1 == nil ==> (SameStack(p.breakStack, old(p.breakStack)) && SameStack(p.continueStack, old(p.continueStack)))
+//@   ensures [C18:located] result1 != nil ==> ErrLoc(result1)
 //@   loopinv [C20:stack-balanced-inv] SameStack(p.breakStack, old(p.breakStack)) && SameStack(p.continueStack, old(p.continueStack))
 //@ end
 
@@ -504,18 +518,21 @@ package parser
 //@   ensures [C18:text-stmts] TextStmtsOK(p)
 //@   modifies p.textStatements
 //@   ensures [C20:stack-balanced] result1 == nil ==> (SameStack(p.breakStack, old(p.breakStack)) && SameStack(p.continueStack, old(p.continueStack)))
+//@   ensures [C18:located] result1 != nil ==> ErrLoc(result1)
 //@   loopinv [C20:stack-balanced-inv] SameStack(p.breakStack, old(p.breakStack)) && SameStack(p.continueStack, old(p.continueStack))
 //@ end
 
 //@ func (p *Parser) parseTextValue
 //@   include ParseFrame
 //@   ensures [C20:stack-balanced] result2 == nil ==> (SameStack(p.breakStack, old(p.breakStack)) && SameStack(p.continueStack, old(p.continueStack)))
+//@   ensures [C18:located] result2 != nil ==> ErrLoc(result2)
 //@   loopinv [C20:stack-balanced-inv] SameStack(p.breakStack, old(p.breakStack)) && SameStack(p.continueStack, old(p.continueStack))
 //@ end
 
 //@ func (p *Parser) parsePoryswitchHeader
 //@   include ParseFrame
 //@   ensures [C20:stack-balanced] result2 == nil ==> (SameStack(p.breakStack, old(p.breakStack)) && SameStack(p.continueStack, old(p.continueStack)))
+//@   ensures [C18:located] result2 != nil ==> ErrLoc(result2)
 //@   loopinv [C20:stack-balanced-inv] SameStack(p.breakStack, old(p.breakStack)) && SameStack(p.continueStack, old(p.continueStack))
 //@ end
 
@@ -524,6 +541,7 @@ package parser
 //@   ensures [C12:same-keys] result2 == nil ==> (result0 != nil && result1 != nil && (forall key string :: {indom(result0, key)} {indom(result1, key)} indom(result0, key) == indom(result1, key)))
 //@   loopinv [C12:same-keys-inv] textCases != nil && textStringTypeCases != nil && fresh(textCases) && fresh(textStringTypeCases) && (forall key string :: {indom(textCases, key)} {indom(textStringTypeCases, key)} indom(textCases, key) == indom(textStringTypeCases, key))
 //@   ensures [C20:stack-balanced] result2 == nil ==> (SameStack(p.breakStack, old(p.breakStack)) && SameStack(p.continueStack, old(p.continueStack)))
+//@   ensures [C18:located] result2 != nil ==> ErrLoc(result2)
 //@   loopinv [C20:stack-balanced-inv] SameStack(p.breakStack, old(p.breakStack)) && SameStack(p.continueStack, old(p.continueStack))
 //@ end
 
@@ -533,6 +551,7 @@ package parser
 //@       : (indom(cases, "_") ? (result0 == cases["_"] && result1 == strTypeCases["_"]) : (result0 == "" && result1 == "")))
 //@   exit [C12:no-case] (result2 == nil && p.enableEnvironmentErrors) ==> (indom(cases, switchValue) || indom(cases, "_"))
 //@   ensures [C20:stack-balanced] result2 == nil ==> (SameStack(p.breakStack, old(p.breakStack)) && SameStack(p.continueStack, old(p.continueStack)))
+//@   ensures [C18:located] result2 != nil ==> ErrLoc(result2)
 //@   loopinv [C20:stack-balanced-inv] SameStack(p.breakStack, old(p.breakStack)) && SameStack(p.continueStack, old(p.continueStack))
 //@ end
 
@@ -540,6 +559,7 @@ package parser
 //@   include ParseFrame
 //@   ensures [C18:mov-named] result1 == nil ==> (result0 != nil && fresh(result0) && result0.Name != nil && fresh(result0.Name) && TokLoc(result0.Token))
 //@   ensures [C20:stack-balanced] result1 == nil ==> (SameStack(p.breakStack, old(p.breakStack)) && SameStack(p.continueStack, old(p.continueStack)))
+//@   ensures [C18:located] result1 != nil ==> ErrLoc(result1)
 //@   loopinv [C20:stack-balanced-inv] SameStack(p.breakStack, old(p.breakStack)) && SameStack(p.continueStack, old(p.continueStack))
 //@ end
 
@@ -547,6 +567,7 @@ package parser
 //@   include ParseFrame
 //@   requires p != nil
 //@   ensures [C20:stack-balanced] result1 == nil ==> (SameStack(p.breakStack, old(p.breakStack)) && SameStack(p.continueStack, old(p.continueStack)))
+//@   ensures [C18:located] result1 != nil ==> ErrLoc(result1)
 //@   loopinv [C20:stack-balanced-inv] SameStack(p.breakStack, old(p.breakStack)) && SameStack(p.continueStack, old(p.continueStack))
 //@ end
 
@@ -555,6 +576,7 @@ package parser
 //@   requires p != nil
 //@   implements ListParserFn
 //@   ensures [C20:stack-balanced] result1 == nil ==> (SameStack(p.breakStack, old(p.breakStack)) && SameStack(p.continueStack, old(p.continueStack)))
+//@   ensures [C18:located] result1 != nil ==> ErrLoc(result1)
 //@   loopinv [C20:stack-balanced-inv] SameStack(p.breakStack, old(p.breakStack)) && SameStack(p.continueStack, old(p.continueStack))
 //@ end
 
@@ -564,6 +586,7 @@ package parser
 //@   exit [C12:no-case] (result1 == nil && p.enableEnvironmentErrors) ==> (indom(cases, switchValue) || indom(cases, "_"))
 //@   fnparam parseFunc implements ListParserFn
 //@   ensures [C20:stack-balanced] result1 == nil ==> (SameStack(p.breakStack, old(p.breakStack)) && SameStack(p.continueStack, old(p.continueStack)))
+//@   ensures [C18:located] result1 != nil ==> ErrLoc(result1)
 //@   loopinv [C20:stack-balanced-inv] SameStack(p.breakStack, old(p.breakStack)) && SameStack(p.continueStack, old(p.continueStack))
 //@ end
 
@@ -571,12 +594,14 @@ package parser
 //@   include ParseFrame
 //@   fnparam parseFunc implements ListParserFn
 //@   ensures [C20:stack-balanced] result1 == nil ==> (SameStack(p.breakStack, old(p.breakStack)) && SameStack(p.continueStack, old(p.continueStack)))
+//@   ensures [C18:located] result1 != nil ==> ErrLoc(result1)
 //@   loopinv [C20:stack-balanced-inv] SameStack(p.breakStack, old(p.breakStack)) && SameStack(p.continueStack, old(p.continueStack))
 //@ end
 
 //@ func (p *Parser) parseMartStatement
 //@   include ParseFrame
 //@   ensures [C20:stack-balanced] result1 == nil ==> (SameStack(p.breakStack, old(p.breakStack)) && SameStack(p.continueStack, old(p.continueStack)))
+//@   ensures [C18:located] result1 != nil ==> ErrLoc(result1)
 //@ end
 
 //@ func parseMartValue
@@ -584,6 +609,7 @@ package parser
 //@   requires p != nil
 //@   implements ListParserFn
 //@   ensures [C20:stack-balanced] result1 == nil ==> (SameStack(p.breakStack, old(p.breakStack)) && SameStack(p.continueStack, old(p.continueStack)))
+//@   ensures [C18:located] result1 != nil ==> ErrLoc(result1)
 //@   loopinv [C20:stack-balanced-inv] SameStack(p.breakStack, old(p.breakStack)) && SameStack(p.continueStack, old(p.continueStack))
 //@ end
 
@@ -595,12 +621,14 @@ package parser
 //@   modifies holes
 //@   ensures [C06:complete] result2 == nil ==> ImpSize(result1) == holes - old(holes)
 //@   ensures [C20:stack-balanced] result2 == nil ==> (SameStack(p.breakStack, old(p.breakStack)) && SameStack(p.continueStack, old(p.continueStack)))
+//@   ensures [C18:located] result2 != nil ==> ErrLoc(result2)
 //@   loopinv [C20:stack-balanced-inv] SameStack(p.breakStack, old(p.breakStack)) && SameStack(p.continueStack, old(p.continueStack))
 //@ end
 
 //@ func (p *Parser) parseMovesOperator
 //@   include ParseFrame
 //@   ensures [C20:stack-balanced] result1 == nil ==> (SameStack(p.breakStack, old(p.breakStack)) && SameStack(p.continueStack, old(p.continueStack)))
+//@   ensures [C18:located] result1 != nil ==> ErrLoc(result1)
 //@   loopinv [C20:stack-balanced-inv] SameStack(p.breakStack, old(p.breakStack)) && SameStack(p.continueStack, old(p.continueStack))
 //@ end
 
@@ -609,6 +637,7 @@ package parser
 //@   ensures [C16,C18:text-token] result3 == nil ==> TokLoc(result0)
 //@   loopinv [C18:font-token] 1 <= fontIdToken.LineNumber && fontIdToken.LineNumber <= fontIdToken.EndLineNumber
 //@   ensures [C20:stack-balanced] result3 == nil ==> (SameStack(p.breakStack, old(p.breakStack)) && SameStack(p.continueStack, old(p.continueStack)))
+//@   ensures [C18:located] result3 != nil ==> ErrLoc(result3)
 //@   loopinv [C20:stack-balanced-inv] SameStack(p.breakStack, old(p.breakStack)) && SameStack(p.continueStack, old(p.continueStack))
 //@ end
 
@@ -620,6 +649,7 @@ package parser
 //@   modifies holes
 //@   ensures [C06:complete] result2 == nil ==> ImpSize(result1) == holes - old(holes)
 //@   ensures [C20:stack-balanced] result2 == nil ==> (SameStack(p.breakStack, old(p.breakStack)) && SameStack(p.continueStack, old(p.continueStack)))
+//@   ensures [C18:located] result2 != nil ==> ErrLoc(result2)
 //@   loopinv [C20:stack-balanced-inv] SameStack(p.breakStack, old(p.breakStack)) && SameStack(p.continueStack, old(p.continueStack))
 //@ end
 
@@ -629,6 +659,7 @@ package parser
 //@   modifies holes
 //@   ensures [C06:complete] result2 == nil ==> ImpSize(result1) == holes - old(holes)
 //@   ensures [C20:stack-balanced] result2 == nil ==> (SameStack(p.breakStack, old(p.breakStack)) && SameStack(p.continueStack, old(p.continueStack)))
+//@   ensures [C18:located] result2 != nil ==> ErrLoc(result2)
 //@   loopinv [C20:stack-balanced-inv] SameStack(p.breakStack, old(p.breakStack)) && SameStack(p.continueStack, old(p.continueStack))
 //@ end
 
@@ -638,18 +669,21 @@ package parser
 //@   modifies holes
 //@   ensures [C06:complete] result2 == nil ==> ImpSize(result1) == holes - old(holes)
 //@   ensures [C20:stack-balanced] result2 == nil ==> (SameStack(p.breakStack, old(p.breakStack)) && SameStack(p.continueStack, old(p.continueStack)))
+//@   ensures [C18:located] result2 != nil ==> ErrLoc(result2)
 //@   loopinv [C20:stack-balanced-inv] SameStack(p.breakStack, old(p.breakStack)) && SameStack(p.continueStack, old(p.continueStack))
 //@ end
 
 //@ func (p *Parser) parseBreakStatement
 //@   include ParseFrame
 //@   ensures [C20:stack-balanced] result1 == nil ==> (SameStack(p.breakStack, old(p.breakStack)) && SameStack(p.continueStack, old(p.continueStack)))
+//@   ensures [C18:located] result1 != nil ==> ErrLoc(result1)
 //@   loopinv [C20:stack-balanced-inv] SameStack(p.breakStack, old(p.breakStack)) && SameStack(p.continueStack, old(p.continueStack))
 //@ end
 
 //@ func (p *Parser) parseContinueStatement
 //@   include ParseFrame
 //@   ensures [C20:stack-balanced] result1 == nil ==> (SameStack(p.breakStack, old(p.breakStack)) && SameStack(p.continueStack, old(p.continueStack)))
+//@   ensures [C18:located] result1 != nil ==> ErrLoc(result1)
 //@   loopinv [C20:stack-balanced-inv] SameStack(p.breakStack, old(p.breakStack)) && SameStack(p.continueStack, old(p.continueStack))
 //@ end
 
@@ -662,6 +696,7 @@ package parser
 //@   modifies holes
 //@   ensures [C06:complete] result3 == nil ==> ImpSize(result2) == holes - old(holes)
 //@   ensures [C20:stack-balanced] result3 == nil ==> (SameStack(p.breakStack, old(p.breakStack)) && SameStack(p.continueStack, old(p.continueStack)))
+//@   ensures [C18:located] result3 != nil ==> ErrLoc(result3)
 // inside the statement the switch is the innermost break target: breakStack == old(breakStack) ++ [statement]
 //@   loopinv [C20:stack-balanced-inv] SameStack(p.continueStack, old(p.continueStack)) && statement != nil && len(p.breakStack) == len(old(p.breakStack)) + 1
 //@     && p.breakStack[len(old(p.breakStack))] == statement && (forall k int :: {p.breakStack[k]} (0 <= k && k < len(old(p.breakStack))) ==> p.breakStack[k] == old(p.breakStack)[k])
@@ -680,6 +715,7 @@ package parser
 //@   modifies holes
 //@   ensures [C06:complete] result2 == nil ==> ImpSize(result1) == holes - old(holes)
 //@   ensures [C20:stack-balanced] result2 == nil ==> (SameStack(p.breakStack, old(p.breakStack)) && SameStack(p.continueStack, old(p.continueStack)))
+//@   ensures [C18:located] result2 != nil ==> ErrLoc(result2)
 //@   loopinv [C20:stack-balanced-inv] SameStack(p.breakStack, old(p.breakStack)) && SameStack(p.continueStack, old(p.continueStack))
 //@ end
 
@@ -689,6 +725,7 @@ package parser
 //@   modifies holes
 //@   ensures [C06:complete] result2 == nil ==> ImpSize(result1) == holes - old(holes)
 //@   ensures [C20:stack-balanced] result2 == nil ==> (SameStack(p.breakStack, old(p.breakStack)) && SameStack(p.continueStack, old(p.continueStack)))
+//@   ensures [C18:located] result2 != nil ==> ErrLoc(result2)
 //@   loopinv [C20:stack-balanced-inv] SameStack(p.breakStack, old(p.breakStack)) && SameStack(p.continueStack, old(p.continueStack))
 //@ end
 
@@ -698,6 +735,7 @@ package parser
 //@   modifies holes
 //@   ensures [C06:complete] result2 == nil ==> ImpSize(result1) == holes - old(holes)
 //@   ensures [C20:stack-balanced] result2 == nil ==> (SameStack(p.breakStack, old(p.breakStack)) && SameStack(p.continueStack, old(p.continueStack)))
+//@   ensures [C18:located] result2 != nil ==> ErrLoc(result2)
 //@   loopinv [C20:stack-balanced-inv] SameStack(p.breakStack, old(p.breakStack)) && SameStack(p.continueStack, old(p.continueStack))
 //@ end
 
@@ -712,6 +750,7 @@ package parser
 //@   ensures [C06:complete] result2 == nil ==> ImpSize(result1) == holes - old(holes)
 //@   ensures [C18:leaf-fresh] result2 == nil ==> (result0 != nil && fresh(result0))
 //@   ensures [C20:stack-balanced] result2 == nil ==> (SameStack(p.breakStack, old(p.breakStack)) && SameStack(p.continueStack, old(p.continueStack)))
+//@   ensures [C18:located] result2 != nil ==> ErrLoc(result2)
 //@   loopinv [C20:stack-balanced-inv] SameStack(p.breakStack, old(p.breakStack)) && SameStack(p.continueStack, old(p.continueStack))
 //@ end
 
@@ -720,6 +759,7 @@ package parser
 //@   requires expression != nil
 //@   modifies expression.Operator, expression.ComparisonValue, expression.ComparisonValueType
 //@   ensures [C20:stack-balanced] result0 == nil ==> (SameStack(p.breakStack, old(p.breakStack)) && SameStack(p.continueStack, old(p.continueStack)))
+//@   ensures [C18:located] result0 != nil ==> ErrLoc(result0)
 //@   loopinv [C20:stack-balanced-inv] SameStack(p.breakStack, old(p.breakStack)) && SameStack(p.continueStack, old(p.continueStack))
 //@ end
 
@@ -728,6 +768,7 @@ package parser
 //@   requires expression != nil
 //@   modifies expression.Operator, expression.ComparisonValue, expression.ComparisonValueType
 //@   ensures [C20:stack-balanced] result0 == nil ==> (SameStack(p.breakStack, old(p.breakStack)) && SameStack(p.continueStack, old(p.continueStack)))
+//@   ensures [C18:located] result0 != nil ==> ErrLoc(result0)
 //@   loopinv [C20:stack-balanced-inv] SameStack(p.breakStack, old(p.breakStack)) && SameStack(p.continueStack, old(p.continueStack))
 //@ end
 
@@ -740,6 +781,7 @@ package parser
 //@   modifies holes
 //@   defines [C06:holes] holes = old(holes) + ImpSize(result1)
 //@   ensures [C20:stack-balanced] result2 == nil ==> (SameStack(p.breakStack, old(p.breakStack)) && SameStack(p.continueStack, old(p.continueStack)))
+//@   ensures [C18:located] result2 != nil ==> ErrLoc(result2)
 //@   loopinv [C20:stack-balanced-inv] SameStack(p.breakStack, old(p.breakStack)) && SameStack(p.continueStack, old(p.continueStack))
 //@ end
 
@@ -751,6 +793,7 @@ package parser
 //@   ensures [C06:slot] result2 == nil ==> (forall key string :: {indom(result1, key)} indom(result1, key) ==> (ImpOK(result1[key]) && (result1[key] == nil || fresh(result1[key]))))
 //@   modifies holes
 //@   ensures [C20:stack-balanced] result2 == nil ==> (SameStack(p.breakStack, old(p.breakStack)) && SameStack(p.continueStack, old(p.continueStack)))
+//@   ensures [C18:located] result2 != nil ==> ErrLoc(result2)
 //@   loopinv [C20:stack-balanced-inv] SameStack(p.breakStack, old(p.breakStack)) && SameStack(p.continueStack, old(p.continueStack))
 //@ end
 
@@ -762,6 +805,7 @@ package parser
 //@   modifies holes
 //@   ensures [C06:complete] result2 == nil ==> ImpSize(result1) == holes - old(holes)
 //@   ensures [C20:stack-balanced] result2 == nil ==> (SameStack(p.breakStack, old(p.breakStack)) && SameStack(p.continueStack, old(p.continueStack)))
+//@   ensures [C18:located] result2 != nil ==> ErrLoc(result2)
 //@   loopinv [C20:stack-balanced-inv] SameStack(p.breakStack, old(p.breakStack)) && SameStack(p.continueStack, old(p.continueStack))
 //@ end
 
@@ -769,6 +813,7 @@ package parser
 //@   include ParseFrame
 //@   modifies fields(p.constants)
 //@   ensures [C20:stack-balanced] result0 == nil ==> (SameStack(p.breakStack, old(p.breakStack)) && SameStack(p.continueStack, old(p.continueStack)))
+//@   ensures [C18:located] result0 != nil ==> ErrLoc(result0)
 //@   loopinv [C20:stack-balanced-inv] SameStack(p.breakStack, old(p.breakStack)) && SameStack(p.continueStack, old(p.continueStack))
 //@ end
 
